@@ -25,6 +25,7 @@ import (
 	"fmt"
 	"io"
 	"net/http"
+	"net/url"
 	"strconv"
 	"strings"
 	"time"
@@ -227,9 +228,6 @@ func (s *S3Proxy) ListObjectVersions(ctx context.Context, input *s3.ListObjectVe
 	}
 	if input.VersionIdMarker != nil && *input.VersionIdMarker == "" {
 		input.VersionIdMarker = nil
-	}
-	if input.MaxKeys != nil && *input.MaxKeys == 0 {
-		input.MaxKeys = nil
 	}
 	if input.ExpectedBucketOwner != nil && *input.ExpectedBucketOwner == "" {
 		input.ExpectedBucketOwner = nil
@@ -615,6 +613,25 @@ func (s *S3Proxy) UploadPart(ctx context.Context, input *s3.UploadPartInput) (*s
 	return output, handleError(err)
 }
 
+// encodeCopySource url-encodes a (decoded) copy source for the
+// x-amz-copy-source header, which the sdk sends as given: the endpoint decodes
+// it again. A ?versionId= suffix is kept.
+func encodeCopySource(src *string) *string {
+	if src == nil {
+		return nil
+	}
+	source, versionID := *src, ""
+	if i := strings.LastIndex(source, "?versionId="); i != -1 {
+		source, versionID = source[:i], source[i:]
+	}
+	parts := strings.Split(source, "/")
+	for i, p := range parts {
+		parts[i] = strings.ReplaceAll(url.QueryEscape(p), "+", "%20")
+	}
+	encoded := strings.Join(parts, "/") + versionID
+	return &encoded
+}
+
 func (s *S3Proxy) UploadPartCopy(ctx context.Context, input *s3.UploadPartCopyInput) (s3response.CopyPartResult, error) {
 	if input.CopySourceIfMatch != nil && *input.CopySourceIfMatch == "" {
 		input.CopySourceIfMatch = nil
@@ -655,6 +672,8 @@ func (s *S3Proxy) UploadPartCopy(ctx context.Context, input *s3.UploadPartCopyIn
 	if input.SSECustomerKeyMD5 != nil && *input.SSECustomerKeyMD5 == "" {
 		input.SSECustomerKeyMD5 = nil
 	}
+
+	input.CopySource = encodeCopySource(input.CopySource)
 
 	output, err := s.client.UploadPartCopy(ctx, input)
 	if err != nil {
@@ -1125,7 +1144,7 @@ func (s *S3Proxy) CopyObject(ctx context.Context, input s3response.CopyObjectInp
 		&s3.CopyObjectInput{
 			Metadata:                       input.Metadata,
 			Bucket:                         input.Bucket,
-			CopySource:                     input.CopySource,
+			CopySource:                     encodeCopySource(input.CopySource),
 			Key:                            input.Key,
 			CacheControl:                   input.CacheControl,
 			ContentDisposition:             input.ContentDisposition,
@@ -1178,9 +1197,6 @@ func (s *S3Proxy) ListObjects(ctx context.Context, input *s3.ListObjectsInput) (
 	if input.Marker != nil && *input.Marker == "" {
 		input.Marker = nil
 	}
-	if input.MaxKeys != nil && *input.MaxKeys == 0 {
-		input.MaxKeys = nil
-	}
 	if input.Prefix != nil && *input.Prefix == "" {
 		input.Prefix = nil
 	}
@@ -1214,9 +1230,6 @@ func (s *S3Proxy) ListObjectsV2(ctx context.Context, input *s3.ListObjectsV2Inpu
 	}
 	if input.ExpectedBucketOwner != nil && *input.ExpectedBucketOwner == "" {
 		input.ExpectedBucketOwner = nil
-	}
-	if input.MaxKeys != nil && *input.MaxKeys == 0 {
-		input.MaxKeys = nil
 	}
 	if input.Prefix != nil && *input.Prefix == "" {
 		input.Prefix = nil
